@@ -44,7 +44,7 @@ man = {
         "add_only": True,
     },
     "engines": [{"name": "gosym", "path": "/verif/engine", "serves_properties": sorted(claimed),
-                 "kind_free_text": "symbolic interpreter for go/ssa (x/tools v0.29.0) with SMT-term scalars, decision-prefix replay exploration, z3 -in back end, native model replay"}],
+                 "kind_free_text": "symbolic interpreter for go/ssa (x/tools v0.29.0) with SMT-term scalars, decision-prefix replay exploration, in-process libz3 4.8.12 back end (SMT-LIB2 text through Z3_eval_smtlib2_string; external z3 -in selectable), native model replay"}],
     "checks": checks,
     "not_applicable": not_app,
     "notes": "See DESIGN.md. Exit codes: 0 holds within bounds, 1 VIOLATION (replayed), 3 inconclusive (never reported as success).",
